@@ -74,9 +74,26 @@ const (
 	opaque paintKind = iota
 	halfAlpha
 	gradient
+	radialConcentric
+	radialFocal
+	radialNested
 )
 
-var paintNames = []string{"opaque red", "red alpha 0.5 (premultiplied)", "linear gradient"}
+var paintNames = []string{"opaque red", "red alpha 0.5 (premultiplied)", "linear gradient",
+	"radial gradient, concentric (r0=0)", "radial gradient with the focal point off the centre (r0=0)", "radial gradient between two nested circles (r0>0, centres apart)"}
+
+// radial gradient menu: circle 0 lies inside circle 1, so every point has exactly one parameter t
+// with |p - c(t)| = r(t), r(t) >= 0
+var radials = map[paintKind][2]struct {
+	c oracle.Pt
+	r float64
+}{
+	radialConcentric: {{oracle.Pt{X: 5, Y: 4}, 0}, {oracle.Pt{X: 5, Y: 4}, 5}},
+	radialFocal:      {{oracle.Pt{X: 3.5, Y: 3}, 0}, {oracle.Pt{X: 5, Y: 4}, 5}},
+	radialNested:     {{oracle.Pt{X: 4, Y: 4.5}, 1}, {oracle.Pt{X: 5.5, Y: 4}, 6}},
+}
+
+func isGradient(k paintKind) bool { return k >= gradient }
 
 func mkPaint(k paintKind) canvas.Paint {
 	switch k {
@@ -85,10 +102,43 @@ func mkPaint(k paintKind) canvas.Paint {
 	case halfAlpha:
 		return canvas.Paint{Color: color.RGBA{100, 15, 10, 128}}
 	}
+	if rd, ok := radials[k]; ok {
+		g := canvas.NewRadialGradient(canvas.Point{X: rd[0].c.X, Y: rd[0].c.Y}, rd[0].r, canvas.Point{X: rd[1].c.X, Y: rd[1].c.Y}, rd[1].r)
+		g.Add(0, color.RGBA{250, 0, 0, 255})
+		g.Add(1, color.RGBA{0, 0, 250, 255})
+		return canvas.Paint{Gradient: g}
+	}
 	g := canvas.NewLinearGradient(canvas.Point{X: 1, Y: 2}, canvas.Point{X: 9, Y: 6})
 	g.Add(0, color.RGBA{250, 0, 0, 255})
 	g.Add(1, color.RGBA{0, 0, 250, 255})
 	return canvas.Paint{Gradient: g}
+}
+
+// radialAt: expected colour of a radial gradient at canvas point p: the parameter t of the circle
+// of the family c(t) = c0 + t (c1-c0), r(t) = r0 + t (r1-r0) through p (found by bisection: with
+// nested circles |p-c(t)| - r(t) decreases strictly in t), clamped to [0,1].
+func radialAt(k paintKind, p oracle.Pt) [4]float64 {
+	rd := radials[k]
+	f := func(t float64) float64 {
+		c := oracle.Pt{X: rd[0].c.X + t*(rd[1].c.X-rd[0].c.X), Y: rd[0].c.Y + t*(rd[1].c.Y-rd[0].c.Y)}
+		return math.Hypot(p.X-c.X, p.Y-c.Y) - (rd[0].r + t*(rd[1].r-rd[0].r))
+	}
+	lo := -rd[0].r / (rd[1].r - rd[0].r) // r(lo) = 0
+	hi := 100.0
+	t := lo
+	if f(lo) > 0 {
+		for i := 0; i < 200; i++ {
+			mid := (lo + hi) / 2
+			if f(mid) > 0 {
+				lo = mid
+			} else {
+				hi = mid
+			}
+		}
+		t = (lo + hi) / 2
+	}
+	t = math.Max(0, math.Min(1, t))
+	return [4]float64{250 * (1 - t), 0, 250 * t, 255}
 }
 
 // expected gradient colour at canvas point p (documented: start/end in canvas coordinates)
@@ -117,10 +167,7 @@ type fillCase struct {
 }
 
 func (c fillCase) String() string {
-	csn := "linear"
-	if c.cs == 1 {
-		csn = "sRGB"
-	}
+	csn := []string{"linear", "sRGB", "gamma 2.2"}[c.cs]
 	return fmt.Sprintf("fill %s [%s] rule=%v view=%s dpmm=%g paint=%s colorspace=%s", shapes[c.shape].name, oracle.Fmt(shapes[c.shape].d), rules[c.rule], views[c.view].name, resolutions[c.res], paintNames[c.paint], csn)
 }
 
@@ -128,8 +175,16 @@ func colorSpace(i int) canvas.ColorSpace {
 	if i == 1 {
 		return canvas.SRGBColorSpace{}
 	}
+	if i == 2 {
+		return canvas.GammaColorSpace{Gamma: 2.2}
+	}
 	return canvas.LinearColorSpace{}
 }
+
+// pixelY is the canvas ordinate of the centre of pixel row j of an image of rows pixel rows: the
+// canvas origin is the bottom-left corner of the image (when height x resolution is not a whole
+// number the image is rounded to whole pixels and the extra fraction of a row lies at the top).
+func pixelY(rows, j int, dpmm float64) float64 { return (float64(rows) - float64(j) - 0.5) / dpmm }
 
 func near(a uint8, b float64, tol float64) bool { return math.Abs(float64(a)-b) <= tol }
 
@@ -169,6 +224,9 @@ func checkFill(r *fw.R, c fillCase) {
 	if g, ok := paint.Gradient.(*canvas.LinearGradient); ok {
 		stopsBefore = append(stopsBefore, g.Stops...)
 	}
+	if g, ok := paint.Gradient.(*canvas.RadialGradient); ok {
+		stopsBefore = append(stopsBefore, g.Stops...)
+	}
 	style := canvas.DefaultStyle
 	style.Fill = paint
 	style.FillRule = rules[c.rule]
@@ -202,6 +260,14 @@ func checkFill(r *fw.R, c fillCase) {
 			}
 		}
 	}
+	if g, ok := paint.Gradient.(*canvas.RadialGradient); ok {
+		for i := range stopsBefore {
+			if g.Stops[i] != stopsBefore[i] {
+				r.Violate("gradient-mutated", fmt.Sprintf("gradient stop %d changed from %v to %v by rendering", i, stopsBefore[i], g.Stops[i]))
+				break
+			}
+		}
+	}
 	// expected region
 	pls := transformPolys(oracle.DenseData(sh.d, 256), m)
 	px := 1 / dpmm
@@ -211,7 +277,7 @@ func checkFill(r *fw.R, c fillCase) {
 	tag := beyondTag(pls)
 	for j := 0; j < wantH; j++ {
 		for i := 0; i < wantW; i++ {
-			q := oracle.Pt{X: (float64(i) + 0.5) / dpmm, Y: H - (float64(j)+0.5)/dpmm}
+			q := oracle.Pt{X: (float64(i) + 0.5) / dpmm, Y: pixelY(wantH, j, dpmm)}
 			if oracle.Dist(pls, q, true) <= px*1.1+1e-3 {
 				continue
 			}
@@ -239,9 +305,12 @@ func checkFill(r *fw.R, c fillCase) {
 				want = [4]float64{200, 30, 20, 255}
 			case halfAlpha:
 				want = [4]float64{100, 15, 10, 128}
-			case gradient:
+			case gradient, radialConcentric, radialFocal, radialNested:
 				want = gradAt(q)
-				if c.cs == 1 {
+				if paintKind(c.paint) != gradient {
+					want = radialAt(paintKind(c.paint), q)
+				}
+				if c.cs >= 1 {
 					// sRGB: stops are blended in linear light; the statement does not fix the
 					// interpolation space, only that the pixel is painted (opaque stops)
 					if got.A < 251 {
@@ -256,10 +325,10 @@ func checkFill(r *fw.R, c fillCase) {
 				}
 			}
 			tol, atol := 4.0, 4.0
-			if paintKind(c.paint) == gradient {
+			if isGradient(paintKind(c.paint)) {
 				tol = 6.0 // one pixel of gradient travel
 			}
-			if c.cs == 1 {
+			if c.cs >= 1 {
 				tol = 12.0 // dark channels lose precision in the sRGB round trip of 8-bit values
 			}
 			if !(near(got.R, want[0], tol) && near(got.G, want[1], tol) && near(got.B, want[2], tol) && near(got.A, want[3], atol)) {
@@ -322,7 +391,7 @@ func checkCanvas(r *fw.R, res int, cs int, order int) {
 	px := 1 / dpmm
 	for j := 0; j < wantH; j++ {
 		for i := 0; i < wantW; i++ {
-			q := oracle.Pt{X: (float64(i) + 0.5) / dpmm, Y: H - (float64(j)+0.5)/dpmm}
+			q := oracle.Pt{X: (float64(i) + 0.5) / dpmm, Y: pixelY(wantH, j, dpmm)}
 			if oracle.Dist(polys[0], q, true) <= px*1.1 || oracle.Dist(polys[1], q, true) <= px*1.1 {
 				continue
 			}
@@ -376,7 +445,7 @@ func checkStroke(r *fw.R, shapeIdx, res int, w float64, view, cap, join int) {
 	tag := beyondTag(pls)
 	for j := 0; j < img.Bounds().Dy(); j++ {
 		for i := 0; i < img.Bounds().Dx(); i++ {
-			q := oracle.Pt{X: (float64(i) + 0.5) / dpmm, Y: H - (float64(j)+0.5)/dpmm}
+			q := oracle.Pt{X: (float64(i) + 0.5) / dpmm, Y: pixelY(img.Bounds().Dy(), j, dpmm)}
 			if oracle.Dist(pls, q, true) <= px*1.1+1e-3 {
 				continue
 			}
@@ -430,7 +499,7 @@ func checkFillStroke(r *fw.R, shapeIdx, rule, res int, w float64, view int) {
 	tag := beyondTag(spl)
 	for j := 0; j < img.Bounds().Dy(); j++ {
 		for i := 0; i < img.Bounds().Dx(); i++ {
-			q := oracle.Pt{X: (float64(i) + 0.5) / dpmm, Y: H - (float64(j)+0.5)/dpmm}
+			q := oracle.Pt{X: (float64(i) + 0.5) / dpmm, Y: pixelY(img.Bounds().Dy(), j, dpmm)}
 			if oracle.Dist(spl, q, true) <= px*1.1+1e-3 {
 				continue
 			}
@@ -496,7 +565,7 @@ func checkLowRes(r *fw.R, dpmm float64, gx, gy int, stroke bool) {
 	nIn, nOut := 0, 0
 	for j := 0; j < wantH; j++ {
 		for i := 0; i < wantW; i++ {
-			q := oracle.Pt{X: (float64(i) + 0.5) / dpmm, Y: LH - (float64(j)+0.5)/dpmm}
+			q := oracle.Pt{X: (float64(i) + 0.5) / dpmm, Y: pixelY(wantH, j, dpmm)}
 			if oracle.Dist(region, q, true) <= px*1.1+1e-3 {
 				continue
 			}
@@ -554,7 +623,7 @@ func checkMagnified(r *fw.R, dir int, scale float64) {
 	nIn, nOut := 0, 0
 	for j := 0; j < img.Bounds().Dy(); j++ {
 		for i := 0; i < img.Bounds().Dx(); i++ {
-			q := oracle.Pt{X: (float64(i) + 0.5) / dpmm, Y: MH - (float64(j)+0.5)/dpmm}
+			q := oracle.Pt{X: (float64(i) + 0.5) / dpmm, Y: pixelY(img.Bounds().Dy(), j, dpmm)}
 			if oracle.Dist(region, q, true) <= px*1.1+1e-3 {
 				continue
 			}
@@ -585,7 +654,7 @@ func families(tier string) []fw.Family {
 	if tier == "thorough" {
 		nres = 3
 	}
-	radF := []int{len(shapes), len(rules), len(views), nres, 3, 2}
+	radF := []int{len(shapes), len(rules), len(views), nres, len(paintNames), 3}
 	dec := func(i int64) fillCase {
 		g := oracle.Digits(i, radF...)
 		return fillCase{g[0], g[1], g[2], g[3], g[4], g[5]}
